@@ -161,6 +161,9 @@ class Lib:
         return VCell(VTuple(items), 'list')
 
     def new_dict(self, it, pairs):
+        if pairs and all(is_conc(k) and isinstance(k, VStr) for k, _ in pairs) \
+                and any(isinstance(v, (VClass, VUserFunc, VFunc, VBound)) for _, v in pairs):
+            return VCell(VCDict([(conc(k), v) for k, v in pairs]), 'dict')
         c = VCell(VMap(None, None, None), 'dict')
         for k, v in pairs:
             self.setitem(it, c, k, v, None)
@@ -690,6 +693,14 @@ class Lib:
             el = c.ety.wrap(simp(c.t[i]))
             self.assume_element(it, c, el)
             return el
+        if isinstance(c, VCDict):
+            idx = it.ctx.force(idx)
+            if not isinstance(idx, VStr):
+                it.raise_('KeyError', line=getattr(node, 'lineno', None))
+            for k, v in c.pairs:
+                if it.ctx.branch(idx.t == z3.StringVal(k), 'key=' + k):
+                    return v
+            it.raise_('KeyError', line=getattr(node, 'lineno', None))
         if isinstance(c, VMap):
             idx = it.ctx.force(idx)
             if c.t is None:
